@@ -36,9 +36,9 @@ Confluent == dst.res = "ok" => dst.reg = DedupRun(reg0).reg
 Perms(n) == <<[i \in 1..n |-> i], [i \in 1..n |-> n + 1 - i], [i \in 1..n |-> (i % n) + 1], [i \in 1..n |-> IF i % 2 = 1 /\ i < n THEN i + 1 ELSE IF i % 2 = 0 THEN i - 1 ELSE i]>>
 Reorder(s, pi) == [i \in DOMAIN s |-> s[pi[i]]]
 CallsFor8 == DerivePool
-CallsForFoo == <<DCall("all_d", DPath(<<"x">>), <<"::z::Last", "::a::First", "Clone", "::m::Mid">>, FALSE), DCall("all_a", DPath(<<"x">>), <<"#[zz]", "#[aa]", "#[mm(x=1)]", "#[codec(dumb_trait_bound)]", "#[codec(crate=::x::codec)]", "#[codec(mel_bound())]", "#[codec(a)]">>, FALSE),
+CallsForFoo == <<DCall("all_d", DPath(<<"x">>), <<"::z::Last", "::a::First", "Clone", "::m::Mid", "Debug", "::core::fmt::Debug", "::a::Clone", "::codec_a::Encode", "::codec_b::Encode">>, FALSE), DCall("all_a", DPath(<<"x">>), <<"#[zz]", "#[aa]", "#[mm(x=1)]", "#[codec(dumb_trait_bound)]", "#[codec(crate=::x::codec)]", "#[codec(mel_bound())]", "#[codec(a)]">>, FALSE),
                  DCall("for_d", DPath(<<"m", "Foo">>), <<"::d::F1", "::d::F0">>, TRUE), DCall("for_d", DPath(<<"m", "Goo">>), <<"::d::G1">>, FALSE),
-                 DCall("for_a", DPath(<<"m", "h", "Hoo">>), <<"#[h1]", "#[h0]">>, TRUE), DCall("for_d", DPath(<<"m", "Foo">>), <<"::d::F2">>, FALSE),
+                 DCall("for_a", DPath(<<"m", "h", "Hoo">>), <<"#[h1]", "#[h0]">>, TRUE), DCall("for_d", DPath(<<"m", "Foo">>), <<"::d::F2", "::e::F2", "F2">>, FALSE),
                  DCall("for_d", DPath(<<"m", "Foo1">>), <<"::d::F1", "::d::F0", "::d::E">>, TRUE), DCall("for_a", DPath(<<"m", "Goo2">>), <<"#[g2]", "#[g1]">>, FALSE),
                  DCall("for_d", DPath(<<"m", "L">>), <<"::d::L2", "::d::L1">>, TRUE), DCall("for_a", DPath(<<"m", "h", "Hoo1">>), <<"#[k]">>, TRUE)>>
 SubsFor(reg) == IF \E i \in DOMAIN reg : reg[i].path = <<"m", "R">> THEN <<LsbRule, MapRule>> ELSE <<Rule(TPath(FALSE, <<"m", "Foo1">>, <<>>), Ext("F1", <<>>)), Rule(TPath(FALSE, <<"m", "Bar">>, <<>>), Ext("B", <<>>))>>
